@@ -637,15 +637,15 @@ func (fx *FuncCtx) freshVal(base string, t types.Type) (Val, []Term) {
 			return c, []Term{k.rangeOf(c)}
 		}
 		if u.Info()&types.IsString != 0 {
-			id := fx.freshConst(base+".str", SStr)
-			ln := fx.freshConst(base+".len", SInt)
+			id := fx.freshConst(base+"$str", SStr)
+			ln := fx.freshConst(base+"$len", SInt)
 			fx.declFun("strlen", []Sort{SStr}, SInt)
 			return StrV{ID: id, Len: ln}, []Term{Ge(ln, IntLit(0)), Eq(ln, app(SInt, "strlen", id))}
 		}
 		return fx.freshConst(base, fx.sortOf(t)), nil
 	case *types.Slice:
 		n := fx.freshName(base)
-		sv := SliceV{Rid: fx.declConst(n+".rid", SInt), Off: fx.declConst(n+".off", SInt), Len: fx.declConst(n+".len", SInt), Cap: fx.declConst(n+".cap", SInt), Elem: u.Elem()}
+		sv := SliceV{Rid: fx.declConst(n+"$rid", SInt), Off: fx.declConst(n+"$off", SInt), Len: fx.declConst(n+"$len", SInt), Cap: fx.declConst(n+"$cap", SInt), Elem: u.Elem()}
 		facts = append(facts, Ge(sv.Rid, IntLit(0)), Ge(sv.Off, IntLit(0)), Ge(sv.Len, IntLit(0)), Le(sv.Len, sv.Cap), Lt(sv.Cap, Pow2(62)),
 			Implies(Eq(sv.Rid, IntLit(0)), Eq(sv.Cap, IntLit(0))))
 		return sv, facts
